@@ -6,6 +6,18 @@ TEXT = {
         "technique": "Coq proof over Flocq binary64 model + differential correspondence on bit patterns",
         "design_ref": "DESIGN.md section 4 C13",
     },
+    "C14": {
+        "level": "Theorems in Coq (Props/C14.v) for EVERY term of the model (all 30 constructors through the regenerated constructor enumerations, any nesting, any image index): consuming extraction equals the borrowing accessor with placeholder (same list; for sets the list is the iteration order), the placeholder sits at its recorded index and is absent from the placeholder-free accessor, extraction panics exactly for index > length, atom/compound/statement partition, capacity class vs component count and ordered/unordered nature (read off the regenerated eq/hash tables), lexical extraction and categories. Table side-conditions (access_tables_ok) are re-proved by computation whenever translate.py regenerates the tables from term/impls.rs. Correspondence: every constructor x every image index 0..n+1 (n<=4) exhaustively plus random nested terms, model evaluated in Coq vs real accessors; the property itself is also evaluated on the real code incl. lexical-vs-fold category agreement.",
+        "note": "Trusted: Coq kernel; translator T4; hand-written Access.v tied by correspondence; HashSet modelled as list in iteration order. 'category(x) = category(fold(x))' for lexical terms is checked on the real code and will become a theorem with the fold model (C03).",
+        "technique": "Coq proof by structural induction + regenerated tables + differential correspondence",
+        "design_ref": "DESIGN.md section 4 C14",
+    },
+    "C17": {
+        "level": "Theorems in Coq (Props/C17.v) for every term, every string and every component list: set_atom_name replaces the name of the five named atom kinds and get_atom_name reports it back verbatim; on an interval it succeeds exactly when the name is [+]digits with value <= 2^64-1 (read_usize, proved against Coq's Decimal library: read_usize_spec) and stores that value; placeholder: Ok, unchanged; compounds/statements: Err, unchanged; push_components appends in order to ordered compounds (image index untouched), unites into sets (membership = old or new; old elements kept as a prefix), fails without modification for fixed-arity terms. Table side-conditions (mutate_tables_ok) re-proved by computation on every regeneration. Correspondence: every constructor x adversarial name pool x component lists.",
+        "note": "Trusted: Coq kernel; translator T4; Rust usize::from_str re-implemented (Dec.v) and differentially checked; HashSet::extend modelled as repeated insert.",
+        "technique": "Coq proof + regenerated tables + differential correspondence",
+        "design_ref": "DESIGN.md section 4 C17",
+    },
 }
 PENDING = "check not built yet in this session; the property is within reach of the technique (see DESIGN.md section 4) and will be claimed once its model, theorems and correspondence stream exist"
 NOT_APPLICABLE = {f"C{i:02d}": PENDING for i in range(1, 18)}
